@@ -771,6 +771,34 @@ def check(col, prog, tier, profile, fixture=None):
                 less = (op in ("Lt", "Le")) == (s > 0)  # a.r < b.r (with equal radii either circle may be "the larger")
                 swapped = less == truth
         if swapped is None:
+            # coincident centres decided before the radii are ordered, by an order-free comparison: d < EPS, then
+            # |a.r - b.r| < EPS -> Same, otherwise None (one circle strictly inside the other, no contact)
+            d_small = abs_close = None
+            for (lin_, op_, tr_) in facts:
+                at_ = list(lin_[0].items())
+                if len(at_) != 1 or not is_eps(lin_[1]) or op_ not in ("Lt", "Le", "Gt", "Ge"):
+                    continue
+                a_, c_ = at_[0]
+                a_ = _strip(a_)
+                o_ = op_ if c_ > 0 else {"Gt": "Lt", "Lt": "Gt", "Ge": "Le", "Le": "Ge"}[op_]
+                below_ = ((o_ in ("Lt", "Le")) == tr_) and (lin_[1] * (1 if c_ > 0 else -1) < 0)
+                if a_[0] == "call" and str(a_[1]).endswith("util::dist"):
+                    d_small = below_
+                if a_[0] == "call" and str(a_[1]).endswith("::abs"):
+                    inner = [x_ for x_ in a_[2] if not (isinstance(x_, tuple) and x_ and x_[0] == "mem")]
+                    if inner and inner[0][0] == "fbin" and inner[0][1] == "Sub":
+                        rs_ = [_strip(x_) for x_ in inner[0][2:4]]
+                        if all(x_[0] == "load" and x_[2][0] == "field" and x_[2][2] == CR for x_ in rs_) and {_pidx(x_) for x_ in rs_} == {1, 2}:
+                            abs_close = below_
+            if d_small is True and abs_close is not None and not any(e.kind == "call" and (e.fn.get("resolved") or e.fn).get("def") == icl.key for e in st.event_list()):
+                key = "%s|same|order-free" % fk(b)
+                if (var == "Same") == abs_close and var in ("Same", "None"):
+                    col.ok("G3", b.loc(), key, "d < EPS and |a.r - b.r| %s EPS -> %s" % ("<" if abs_close else ">=", var))
+                    if var == "Same":
+                        seen["Same"] = True
+                else:
+                    col.violation("G3", key, b.loc(), "coincident centres: Same must be returned exactly when the radii agree within the tolerance, None otherwise (got %s under |a.r - b.r| %s EPS)" % (var, "<" if abs_close else ">="))
+                continue
             col.violation("G3", "%s|radii-ordered" % fk(b), b.loc(), "a path of intersect_cc forms R - r without first ordering the radii (no a.r < b.r test on the path)")
             continue
         big, small = (2, 1) if swapped else (1, 2)
